@@ -352,9 +352,8 @@ class Effects:
         # returns
         for st in ir.walk_stmts(fn.body):
             if st.get('s') == 'ret' and st.get('e') is not None:
-                ret_ty = fn.d.get('ret', '')
-                if ret_ty.endswith('&') or ret_ty.endswith('*'):
-                    s['returns'] |= self.lv(st['e'], fn)
+                # the path of the returned expression (for by-value accessors: the slot that is read)
+                s['returns'] |= self.lv(st['e'], fn)
         s['writes'] = {p for p in writes if not (p[0].startswith('local:') or p[0] == 'temp')}
         s['local_writes'] = {p for p in writes if p[0].startswith('local:')}
         return s
